@@ -372,7 +372,7 @@ def A8(ctx: Ctx) -> RuleResult:
         r.notes.append(f'MessageType.constants annotation is {f.annotation_src() if f else None}')
     sites = [(m.cls('HplFieldAccess', 'A8'), '_get_next_token', 'token'), (mt, 'get_type_of', None)]
     for c, meth, tokparam in sites:
-        fi = c.methods.get(meth)
+        fi = c.resolve(meth)    # possibly a template method of the base class that calls back into this class
         if fi is None:
             raise AnalysisError('A8', f'{c.name}.{meth} not found')
         self_t = Sym('self', c.name)
